@@ -8,6 +8,7 @@ import (
 	cstate "0chain.net/chaincore/chain/state"
 	"0chain.net/chaincore/transaction"
 	"0chain.net/core/encryption"
+	"0chain.net/smartcontract/dbs/event"
 	"0chain.net/smartcontract/stakepool"
 	"0chain.net/smartcontract/stakepool/spenum"
 	"0chain.net/smartcontract/storagesc"
@@ -236,6 +237,17 @@ func vC18Run(maxSigs int) {
 	} else {
 		sym.Assert(credited == 0, "no pool changes when the fee is zero")
 	}
+	// what the query database is told (C20 builds on this shape)
+	nMint := 0
+	for _, e := range balances.GetEvents() {
+		if e.Tag == event.TagAddBridgeMint {
+			nMint++
+			bm, ok := e.Data.(*event.BridgeMint)
+			sym.Assert(ok && e.Index == t.ClientID && bm.UserID == t.ClientID && bm.MintNonce == payload.Nonce && len(tr) == 1 && bm.Amount == tr[0].Amount,
+				"an accepted mint emits one bridge-mint event indexed by the client with the nonce and the minted amount")
+		}
+	}
+	sym.Assert(nMint == 1, "an accepted mint emits exactly one bridge-mint event")
 	// the nonce is consumed: minting it again fails
 	balances2 := balances
 	_, err2 := zcn.mint(t, payload.Encode(), 1, balances2)
